@@ -4,6 +4,7 @@ import common
 
 PROPS = "RotoV.Props.C18"
 PROPS_USE = "RotoV.Props.C18Use"
+PROPS_PASSES = "RotoV.Props.C18Passes"
 
 
 def search(ctx):
@@ -19,19 +20,33 @@ def search(ctx):
 
 
 def run(ctx):
-    ctx.extract(["keywords", "flattenuse"])
-    # two theorem modules, so that a change to the macro breaks exactly the T5 obligations and a change to the
-    # lexer's keyword table exactly the others
-    ok1 = ctx.prove(PROPS, extra_modules=["RotoV.Lemmas.Registration", "RotoV.Lemmas.RegistrationUse",
-                                          "RotoV.Model.Registration"])
-    first = {k: ctx.coverage.get(k) for k in ("theorems", "nonvacuity_examples", "axioms")}
-    ok2 = ctx.prove(PROPS_USE, extra_modules=["RotoV.Lemmas.UseTree", "RotoV.Model.UseTree"])
-    if first["theorems"] and ok2:  # prove() overwrites these: report both modules
-        ctx.coverage["theorems"] = first["theorems"] + ctx.coverage["theorems"]
-        ctx.coverage["nonvacuity_examples"] += first["nonvacuity_examples"]
-        ctx.coverage["axioms"] = {**first["axioms"], **ctx.coverage["axioms"]}
-    elif first["theorems"]:
-        ctx.coverage.update(first)
+    ctx.extract(["keywords", "flattenuse", "regpasses"])
+    # three theorem modules, so that a change to the macro breaks exactly the T5 obligations, a change to the pass
+    # structure of Rt::add exactly those of C18Passes and a change to the lexer's keyword table the others
+    parts = []
+
+    def prove(module, extra=()):
+        for k in ("theorems", "nonvacuity_examples", "axioms"):
+            ctx.coverage.pop(k, None)
+        ok = ctx.prove(module, extra_modules=list(extra))
+        if ctx.coverage.get("theorems"):  # prove() overwrites these: report all modules
+            parts.append({k: ctx.coverage.get(k) for k in ("theorems", "nonvacuity_examples", "axioms")})
+        return ok
+
+    ok1 = prove(PROPS, ["RotoV.Lemmas.Registration", "RotoV.Lemmas.RegistrationUse",
+                        "RotoV.Lemmas.RegistrationOps", "RotoV.Lemmas.RegistrationClosed",
+                        "RotoV.Lemmas.RegistrationOrder", "RotoV.Lemmas.RegistrationExact",
+                        "RotoV.Lemmas.RegistrationDefects", "RotoV.Lemmas.RegistrationReach",
+                        "RotoV.Lemmas.RegistrationAccepts", "RotoV.Lemmas.RegistrationOrigin", "RotoV.Model.Registration",
+                        "RotoV.Model.RegistrationSrc"])
+    ok2 = prove(PROPS_USE, ["RotoV.Lemmas.UseTree", "RotoV.Model.UseTree"])
+    # the theorems that mention the regenerated pass structure (pass order, per-arm scope, declare_import walk)
+    ok3 = prove(PROPS_PASSES)
+    if parts:
+        ctx.coverage["theorems"] = [t for p in parts for t in p["theorems"]]
+        ctx.coverage["nonvacuity_examples"] = sum(p["nonvacuity_examples"] or 0 for p in parts)
+        ctx.coverage["axioms"] = {k: v for p in parts for k, v in (p["axioms"] or {}).items()}
+    ok2 = ok2 and ok3
     if not (ok1 and ok2):
         ctx.lake_build(["rotov-driver"])
     if ctx.build_harness("c18"):
@@ -40,8 +55,13 @@ def run(ctx):
         "the lexer's verdict on a name (token kind, whether a second token follows, whether the token spans the "
         "name) is a parameter of the model; the harness supplies it for a fixed pool of names",
         "scopes are named by their path (quotient by scope numbering); Vec<RuntimeType> is kept as its two indexes",
-        "hand-written model of Rt::add tied to the source by the differential run only (outcome incl. error kind, "
-        "resolution of every probed path); the quantifier over libraries is sampled there",
+        "hand-written model of Rt::add tied to the source (a) by the translator target regpasses: pass order, the scope "
+        "every pass starts from, what every `match item` arm of every pass does and with which scope (resolved through "
+        "lets and helper methods), the walk / registration scope of declare_import = the facts the model embodies "
+        "(theorem passes_as_modelled, decided on every run) and (b) by the differential run (outcome incl. error kind, "
+        "resolution of every probed path); the bodies of the leaf functions (declare_type / declare_function / "
+        "declare_constant / check_name, the scope graph's insert_*) are tied by (b) only; the quantifier over "
+        "libraries is sampled there",
         "script-side name lookup is modelled for a fresh script at top level (root declarations, then root imports)",
         "library!: flatten_use_tree is regenerated from macros/src/lib.rs by a transliterator for list-functional Rust "
         "(extract/src/targets/c18.rs, mod listfn) and proved equal to the specification for all use trees; syn's parse "
